@@ -6,7 +6,9 @@ Pure ast walk over common.py and server.py, no execution of repo code, fail clos
   common.py
     * with_timeout: the wrapper is `coro = f(..); timeout = getattr(cls, name); return asyncio.wait_for(coro, timeout)`
       -> the two argument texts of wait_for and the binding of `timeout`;
-    * StreamIO.__init__: defaults of the keyword-only parameters and the two `self.X = A or B` assignments;
+    * StreamIO.__init__: defaults of the keyword-only parameters and the two `self.X = <A, fallback B>` assignments
+      with their semantics: `A or B` ("or": 0 falls back too -- the shape before the F16 repair) or
+      `B if A is None else A` ("is-none": only None falls back -- the repaired shape);
     * StreamIO methods: method -> timeout attribute named by its with_timeout decorator;
     * ThrottleStreamIO.__init__ forwards *args/**kwargs to StreamIO.__init__;
       ThrottleStreamIO.read/readline/write: `await self.wait(name)` is the FIRST statement and precedes the
@@ -129,6 +131,41 @@ def with_timeout_facts(tree):
     return resolve(ret.args[0]), resolve(ret.args[1]), bare
 
 
+def is_none_test(t):
+    """`X is None` -> (X, True); `X is not None` -> (X, False); anything else -> None"""
+    if (
+        isinstance(t, ast.Compare)
+        and len(t.ops) == 1
+        and isinstance(t.ops[0], (ast.Is, ast.IsNot))
+        and isinstance(t.left, ast.Name)
+        and isinstance(t.comparators[0], ast.Constant)
+        and t.comparators[0].value is None
+    ):
+        return t.left.id, isinstance(t.ops[0], ast.Is)
+    return None
+
+
+def fallback_shape(attr, v):
+    """value of `self.<attr> = ...` in StreamIO.__init__ -> (semantics, primary parameter, fallback parameter)
+         A or B                                   -> ("or", A, B)       a FALSY A (None and 0) yields B  [the old, defective shape]
+         B if A is None else A                    -> ("is-none", A, B)  only A = None yields B            [the repaired shape]
+         A if A is not None else B                -> ("is-none", A, B)
+         A                                        -> ("name", A, A)
+       anything else is not classified (fail closed)."""
+    if isinstance(v, ast.BoolOp) and isinstance(v.op, ast.Or) and len(v.values) == 2 and all(isinstance(x, ast.Name) for x in v.values):
+        return "or", v.values[0].id, v.values[1].id
+    if isinstance(v, ast.IfExp) and isinstance(v.body, ast.Name) and isinstance(v.orelse, ast.Name):
+        t = is_none_test(v.test)
+        if t is not None:
+            tested, when_none = t
+            primary, fallback = (v.orelse.id, v.body.id) if when_none else (v.body.id, v.orelse.id)
+            if primary == tested:
+                return "is-none", primary, fallback
+    if isinstance(v, ast.Name):
+        return "name", v.id, v.id
+    raise Unclassified(f"StreamIO.__init__: self.{attr} = {src(v)}")
+
+
 def streamio_facts(tree, bare_attr):
     c = cls_of(tree, "StreamIO")
     init = fn_of(c, "__init__")
@@ -139,12 +176,7 @@ def streamio_facts(tree, bare_attr):
             attr = st.targets[0].attr
             v = st.value
             if attr in ("read_timeout", "write_timeout", "timeout"):
-                if isinstance(v, ast.BoolOp) and isinstance(v.op, ast.Or) and len(v.values) == 2 and all(isinstance(x, ast.Name) for x in v.values):
-                    assigns.append((attr, v.values[0].id, v.values[1].id))
-                elif isinstance(v, ast.Name):
-                    assigns.append((attr, v.id, v.id))
-                else:
-                    raise Unclassified(f"StreamIO.__init__: self.{attr} = {src(v)}")
+                assigns.append((attr,) + fallback_shape(attr, v))
             elif not isinstance(v, ast.Name):
                 raise Unclassified(f"StreamIO.__init__: self.{attr} = {src(v)}")
         else:
@@ -449,10 +481,11 @@ def generate(src_dir):
     o += f"Definition with_timeout_coro : string := {S(wf_a)}.\n"
     o += f"Definition with_timeout_timeout : string := {S(wf_b)}.\n"
     o += f"Definition with_timeout_bare_attr : string := {S(bare)}.\n\n"
-    o += "(* StreamIO.__init__: keyword defaults and `self.X = A or B` *)\n"
+    o += "(* StreamIO.__init__: keyword defaults and `self.X = <A with fallback B>`: (X, (semantics, (A, B))),\n"
+    o += "   semantics \"or\" = `A or B` (falsy A -> B), \"is-none\" = `B if A is None else A`, \"name\" = plain `A` *)\n"
     o += f"Definition streamio_defaults : list (string * string) := {pairs(s_defaults)}.\n"
-    o += "Definition streamio_init : list (string * (string * string)) := [" + "; ".join(
-        f"({S(a)}, ({S(b)}, {S(c)}))" for a, b, c in s_assigns
+    o += "Definition streamio_init : list (string * (string * (string * string))) := [" + "; ".join(
+        f"({S(a)}, ({S(sem)}, ({S(b)}, {S(c)})))" for a, sem, b, c in s_assigns
     ) + "].\n"
     o += "(* StreamIO awaiting methods: (method, timeout attribute (\"\" = none), awaited callees) *)\n"
     o += "Definition streamio_timed : list (string * (string * list string)) := [" + "; ".join(
